@@ -33,12 +33,15 @@ type rzCase struct {
 	Reflow      bool `json:"reflow,omitempty"`   // armored by the harness into many short pre elements holding whole base64 quanta
 	Boundary    int  `json:"boundary,omitempty"` // reflow: an element boundary is placed exactly at this HTML offset
 	Pad         int  `json:"pad,omitempty"`      // bytes of whitespace appended after the document
+	// the first TransportErrors round trips fail with a transport-level error (reset, blocked front)
+	TransportErrors int `json:"transport_errors,omitempty"`
 }
 
 type recRT struct {
 	reqs []*http.Request
 	body [][]byte
 	resp func() *http.Response
+	fail int // this many round trips fail before one succeeds
 }
 
 func (r *recRT) RoundTrip(req *http.Request) (*http.Response, error) {
@@ -48,6 +51,9 @@ func (r *recRT) RoundTrip(req *http.Request) (*http.Response, error) {
 	}
 	r.reqs = append(r.reqs, req)
 	r.body = append(r.body, b)
+	if len(r.reqs) <= r.fail {
+		return nil, fmt.Errorf("read tcp 192.0.2.1:40000->192.0.2.2:443: connection reset by peer")
+	}
 	return r.resp(), nil
 }
 
@@ -140,6 +146,9 @@ func (c *rzCase) exchange(front string) ([]byte, error, *recRT, error) {
 		}
 		return &http.Response{StatusCode: c.Status, Status: fmt.Sprint(c.Status), Header: h, Body: io.NopCloser(bytes.NewReader(body)), ContentLength: int64(len(body))}
 	}}
+	if front != "" {
+		rt.fail = c.TransportErrors
+	}
 	var rz RendezvousMethod
 	var err error
 	if c.Method == "http" {
@@ -168,6 +177,22 @@ func runRendezvousIO(_ *testing.T, c rzCase) error {
 		// the exchange failed before any request (e.g. the cache URL cannot be built): must be an error
 		if xerr == nil {
 			return fmt.Errorf("no request was made yet Exchange returned data")
+		}
+		return nil
+	}
+	if c.Front != "" && c.TransportErrors > 0 {
+		// whatever the client does after a transport error (give up, as it does, or try again): every
+		// request it makes connects to the front and names the broker/cache only in Host
+		for k, q := range rt.reqs {
+			if q.URL.Host != c.Front {
+				return fmt.Errorf("with front %q, request #%d (after %d transport error(s)) connects to %q", c.Front, k+1, min(k, c.TransportErrors), q.URL.Host)
+			}
+			if q.Host != rt0.reqs[0].URL.Host {
+				return fmt.Errorf("with front %q, request #%d (after %d transport error(s)) carries Host %q, expected %q", c.Front, k+1, min(k, c.TransportErrors), q.Host, rt0.reqs[0].URL.Host)
+			}
+		}
+		if len(rt.reqs) <= c.TransportErrors && xerr == nil {
+			return fmt.Errorf("every round trip failed (%d), yet Exchange returned %d bytes of data and no error", len(rt.reqs), len(data))
 		}
 		return nil
 	}
@@ -300,6 +325,11 @@ func TestVerifC11ClientExchange(t *testing.T) {
 		}
 		if c.Front != "" {
 			labels = append(labels, "fronted")
+			if rapid.IntRange(0, 3).Draw(rt, "transporterr") == 0 {
+				c.TransportErrors = rapid.IntRange(1, 3).Draw(rt, "nerr")
+				labels = append(labels, "fronted, first round trip(s) fail")
+				nt = true
+			}
 		}
 		vstat.Run(uRzIO, t, rt, c, nt, labels, runRendezvousIO)
 	})
